@@ -5,6 +5,9 @@ pid, wt = sys.argv[1], sys.argv[2]
 import os
 prior = json.load(open("/tmp/prior_seeds.json")).get(pid, []) if os.path.exists("/tmp/prior_seeds.json") and len(sys.argv) > 3 else []
 ALREADY = ""
+LARGE = ""
+if len(sys.argv) > 3 and sys.argv[3] == "round3":
+    LARGE = "Additional requirement for this round: each of your changes must only manifest on something LARGER or LONGER than a small example - e.g. at least five or six tasks in the graph, three or more recorded versions, many instances, deeply nested packages, long names or values, a history of several commands, four or more git commits, more than two parallel slots - so that nobody who only tries small cases (graphs of up to four tasks, one or two versions, short names) can see it. Say in notes.md what the smallest manifesting case is.\n\n"
 if prior:
     ALREADY = "\n\nOther people have ALREADY produced seeded defects for this property based on the following ideas - yours must use clearly DIFFERENT mechanisms and different code sites where possible:\n" + "\n".join("  - " + d for _, d in prior) + "\n"
 rec = [json.loads(l) for l in open("/verif/properties.jsonl") if json.loads(l)["id"] == pid][0]
@@ -22,7 +25,7 @@ The property under study (this is the ONLY thing you are told about what is bein
   It is meant to hold: {rec['quantifier']['text']}
 
 {ALREADY}
-Your task: produce TWO independent, realistic source changes ("seeded defects") to the code under {wt}/src/conductor, each of which BREAKS this property while (a) the package still imports/compiles, (b) every test of the existing suite that passed before still passes. Each change must need something SPECIFIC to manifest - a particular interleaving/completion order, a crash or signal at a particular point, a multi-step sequence of operations, an unusual input, or two cooperating sites that each look fine alone - NOT something that ordinary use (e.g. any simple `cond run`) would expose at once. Think of the kind of regression a plausible refactoring or "optimisation" would introduce. The two changes should break the property through different mechanisms / different code sites.
+{LARGE}Your task: produce TWO independent, realistic source changes ("seeded defects") to the code under {wt}/src/conductor, each of which BREAKS this property while (a) the package still imports/compiles, (b) every test of the existing suite that passed before still passes. Each change must need something SPECIFIC to manifest - a particular interleaving/completion order, a crash or signal at a particular point, a multi-step sequence of operations, an unusual input, or two cooperating sites that each look fine alone - NOT something that ordinary use (e.g. any simple `cond run`) would expose at once. Think of the kind of regression a plausible refactoring or "optimisation" would introduce. The two changes should break the property through different mechanisms / different code sites.
 
 For each change i in (1, 2) deliver, under {wt}/_seed/<i>/ :
   - patch.diff : `git diff` of the change against the worktree's HEAD (only files under src/), applying cleanly with `git apply`
